@@ -67,11 +67,15 @@ CanCreate(kind) == /\ nid < MaxTasks + MaxEpics
                    /\ Cardinality({k \in 1..Len(hist) : hist[k].name = (IF kind = "task" THEN "new_task" ELSE "new_epic")
                                                          /\ k \in DOMAIN hist}) < (IF kind = "task" THEN MaxTasks ELSE MaxEpics)
 
+\* input modes: JSON on stdin; flags only; --body-stdin (body on stdin, the rest as flags)
+ModeArgs == IF "modes" \in Extras THEN {"json", "flags", "bodystdin"} ELSE {"json"}
+WithMode(c, m) == [c EXCEPT !.mode = m, !.body = IF m = "bodystdin" THEN "body text" ELSE @]
+
 NewTaskCmds(g) ==
   IF "new_task" \notin CmdNames \/ ~CanCreate("task") THEN {}
-  ELSE {TaskCmd("new_task", "", "T" \o ToString(nid + 1), ABSENT, e, s, c, ABSENT, ABSENT, FALSE, a, <<Id(nid + 1)>>) :
+  ELSE {WithMode(TaskCmd("new_task", "", "T" \o ToString(nid + 1), ABSENT, e, s, c, ABSENT, ABSENT, FALSE, a, <<Id(nid + 1)>>), m) :
           e \in Opt(EpicArgs(g)), s \in Opt(StateArgs), c \in Opt(ClaimArgs),
-          a \in (IF StateArgs = {} /\ ClaimArgs = {} THEN {""} ELSE AgentArgs)}
+          a \in (IF StateArgs = {} /\ ClaimArgs = {} THEN {""} ELSE AgentArgs), m \in ModeArgs}
 
 NewEpicCmds(g) ==
   IF "new_epic" \notin CmdNames \/ ~CanCreate("epic") THEN {}
@@ -80,14 +84,14 @@ NewEpicCmds(g) ==
 
 SetCmds(g) ==
   IF "set" \notin CmdNames THEN {}
-  ELSE {c \in {TaskCmd("set", i, t, ABSENT, e, s, cl, ABSENT, ABSENT, FALSE, a, <<>>) :
-                 i \in IdArgs(g),
+  ELSE {c \in {WithMode(TaskCmd("set", i, t, ABSENT, e, s, cl, ABSENT, ABSENT, FALSE, a, <<>>), m) :
+                 i \in IdArgs(g), m \in ModeArgs,
                  t \in (IF "text" \in Extras THEN {ABSENT, "T9", " "} ELSE {ABSENT}),
                  e \in (IF "set_epic" \in Extras THEN Opt(EpicArgs(g) \cup {""}) ELSE {ABSENT}),
                  s \in Opt(StateArgs), cl \in Opt(ClaimArgs),
                  a \in (IF StateArgs = {} /\ ClaimArgs = {} THEN {""} ELSE AgentArgs)} :
             \* at least one field
-            c.title # ABSENT \/ c.epic # ABSENT \/ c.state # ABSENT \/ c.claim # ABSENT}
+            c.title # ABSENT \/ c.epic # ABSENT \/ c.state # ABSENT \/ c.claim # ABSENT \/ c.mode = "bodystdin"}
 
 ResultCmds(g) ==
   IF "results" \notin Extras THEN {}
